@@ -20,6 +20,7 @@ import (
 // C17: NYCT alerts extension groups elevator alerts and maps Mercury data as documented.
 
 type CaseC17 struct {
+	vt.Env
 	Zone string
 	Msg  *rgen.Msg
 	Opts rgen.NyctAlertsOpts
@@ -290,6 +291,7 @@ func genC17(t *rapid.T) (CaseC17, map[string]bool) {
 	}
 	m.Entities = ents
 	c := CaseC17{Zone: zone, Msg: m, Opts: genC17Opts(t)}
+	c.Env = genEnv(t)
 	exp, _ := rgen.ExpectNyctAlerts(m, c.Opts, rgen.LocOrUTC(zone))
 	for _, e := range exp {
 		if e.Elevator && len(e.MemberIDs) >= 2 {
